@@ -551,7 +551,8 @@ func c17OracleRun(cs c17Case, decoded []cogyaml.Veneers, wantStatus string, want
 		}
 		if nSel > 0 {
 			switch st.kind {
-			case "promote", "merge_into", "compose", "add_option", "add_assignment":
+			case "promote", "merge_into", "compose":
+				// (add_option / add_assignment no longer share anything with the rule: /repo b52532c)
 				sharing = append(sharing, st.kind)
 			}
 		}
